@@ -388,6 +388,14 @@ def gen_geo1(rng, multi=None, permute=True):
     sdir = {s: [0, 0, 0] for s in labels}
     for s in labels:
         sdir[s][rng.randrange(3)] = rng.choice([1, -1])
+    # inclined sensors: a direction is any vector (direction cosines such as (0.6, -0.8, 0), or un-normalised components),
+    # not only a signed axis; the table's values are part of what has to come back unchanged
+    incl = rng.random()
+    if incl < 0.45:
+        for s in labels:
+            if incl < 0.15 or rng.random() < 0.4:
+                sdir[s] = rng.choice([[0.6, -0.8, 0], [0, 0.6, 0.8], [0.5, 0.5, -0.75], [-0.28, 0, 0.96],
+                                      [_num(rng) / 8 for _ in range(3)], [0.25, -0.5, 2.5]])
     spec = {
         "kind": "geo1", "rows": rows, "ref_ind": ref, "flat": flat, "labels": labels,
         "coord": coord, "dir": sdir,
